@@ -60,6 +60,7 @@ def integral (j : Json) : Except String Json := do
   | "cart", "divergence", 3 => pure (jQ (intCart3Divergence mth d0 d1 d2 a n m l))
   | "sph", "divergence", _ => pure (jQ (intSphDivergence cons mth r d0 a n))
   | "polar", "divergence", _ => pure (jQ (intPolarDivergence r d0 a n))
+  | "cyl", "divergence", _ => pure (jQ (intCylDivergence r d0 d1 a n m))
   | _, _, _ => throw s!"integral of {op} not modelled for {cls}/{shape.length}"
 
 def parseMethod (j : Json) : Except String Method :=
